@@ -270,7 +270,8 @@ def scanMips32 (env : Env) (mem : Mem) (c : Ctx) (t : Trust) : Option Ctx :=
       | none => none
       | some (_, a, ip) =>
         if a + 4 > U32MAX then none
-        else some { ip := ip, sp := a + 4, rest := [], valid := some ["pc", "sp"] }
+        -- `caller_ctx.context_flags = ctx.0.context_flags` (fix 4372dd8)
+        else some { ip := ip, sp := a + 4, rest := [], valid := some ["pc", "sp"], m64 := c.m64 }
 
 def scanMips64 (env : Env) (mem : Mem) (c : Ctx) : Option Ctx :=
   match c.get .mips64 "sp" with
@@ -280,7 +281,8 @@ def scanMips64 (env : Env) (mem : Mem) (c : Ctx) : Option Ctx :=
     | none => none
     | some (_, a, ip) =>
       if a + 8 > U64MAX then none
-      else some { ip := ip, sp := a + 8, rest := [], valid := some ["pc", "sp"] }
+      -- `caller_ctx.context_flags = ctx.context_flags` (fix 4372dd8): the caller stays MIPS64
+      else some { ip := ip, sp := a + 8, rest := [], valid := some ["pc", "sp"], m64 := c.m64 }
 
 /-! ### technique dispatch and the shared epilogue -/
 
